@@ -175,7 +175,8 @@ def _dump_tuple(obj, stream):
 
 
 def _undumpable(obj, stream):
-    raise TypeError("cannot dump %r" % (obj,))
+    # name the type only: repr() of an arbitrary object may raise, and repr() of a netref is a remote call
+    raise TypeError("cannot dump %s objects" % (type(obj).__name__,))
 
 
 def _dump(obj, stream):
